@@ -98,16 +98,68 @@ Proof.
     (destruct (lookup attr (fstrs f)) as [[x|]|] eqn:E; [congruence | exfalso; apply (G attr); exact E | congruence]).
 Qed.
 
-Lemma invert_sem f q q' o :
-  invert q = Ok q' ->
-  (forall negs k v, q <> QInfo negs k v) ->
-  (forall negs a, q = QAttr negs a -> acond3 f a <> None) ->
-  holds f q' o = negb (holds f q o).
+(* De Morgan over a list of pairwise negated conditions *)
+Lemma jsem_dual {A B} k (R : A -> B -> Prop) (H : A -> bool) (H' : B -> bool) xs ys :
+  Forall2 R xs ys -> (forall x y, In x xs -> R x y -> H' y = negb (H x)) ->
+  jsem (dual k) H' ys = negb (jsem k H xs).
 Proof.
-  destruct q; simpl; intro H; inversion H; subst; intros NI NA.
-  - simpl. destruct inv; destruct (existsb _ _); reflexivity.
-  - simpl. specialize (NA negs a eq_refl). destruct (acond3 f a); [reflexivity | congruence].
-  - exfalso. eapply NI. reflexivity.
+  intros F. induction F as [|x y xs ys Hxy F IH]; intro E; [destruct k; reflexivity|].
+  change (y :: ys) with ([y] ++ ys). change (x :: xs) with ([x] ++ xs).
+  rewrite !jsem_app, !jsem_single.
+  rewrite (E x y (or_introl eq_refl) Hxy), IH by (intros x' y' Hx'; apply E; right; exact Hx').
+  destruct k; simpl; [apply eq_sym, negb_andb | apply eq_sym, negb_orb].
+Qed.
+
+Lemma invert_go vr ms :
+  (fix go (l : list qobj) : result (list qobj) :=
+     match l with
+     | [] => Ok []
+     | x :: r => bind (invert vr x) (fun y => bind (go r) (fun ys => Ok (y :: ys)))
+     end) ms = map_result (invert vr) ms.
+Proof. induction ms as [|x r IH]; simpl; [reflexivity | rewrite IH; reflexivity]. Qed.
+
+Lemma invert_QJ vr k ms :
+  invert vr (QJ k ms) =
+  if fix_not_junction vr then bind (map_result (invert vr) ms) (fun ms' => junction vr (dual k) ms') else Err ETypeError.
+Proof. simpl. destruct (fix_not_junction vr); [|reflexivity]. rewrite invert_go. reflexivity. Qed.
+Lemma neg_ok_QJ vr ci ct cn ca k ms :
+  neg_ok vr ci ct cn ca (QJ k ms) =
+  forallb (neg_ok vr ci ct cn ca) ms &&
+  match map_result (invert vr) ms with Ok ms' => junction_ok vr ci ct (dual k) ms' | Err _ => true end.
+Proof. simpl. rewrite invert_go. reflexivity. Qed.
+
+(* negation of a compiled condition negates its meaning, under the guard neg_ok *)
+Lemma invert_sem f vr ci ct ca :
+  (ci = true \/ fix_inverted_merge vr = true) ->
+  (ct = true \/ fix_or_tables vr = true) ->
+  (ca = true \/ attrs_defined f = true \/ fix_not_null vr = true) ->
+  forall q q', invert vr q = Ok q' -> neg_ok vr ci ct true ca q = true ->
+  forall o, wf_obj o = true -> holds f q' o = negb (holds f q o).
+Proof.
+  intros Hci Hct Hca.
+  induction q as [| | | |n inner inv IHq|negs a|negs k v|negs a|inv k v|k ms HF] using qobj_ind';
+    intros q' H G o W; try (simpl in H; congruence).
+  - simpl in H. inversion H. subst q'. simpl. destruct inv; destruct (existsb _ _); reflexivity.
+  - simpl in H, G. destruct (fix_not_null vr) eqn:EN.
+    + inversion H. subst q'. apply Nat.eqb_eq in G. subst negs. simpl. reflexivity.
+    + inversion H. subst q'. simpl.
+      assert (NA : acond3 f a <> None).
+      { destruct Hca as [Hc | [Hd | Hx]]; [subst ca; simpl in G; congruence | apply attrs_defined_acond3; exact Hd | congruence]. }
+      destruct (acond3 f a); [reflexivity | congruence].
+  - simpl in G. congruence.
+  - simpl in H. inversion H. subst q'. reflexivity.
+  - simpl in H. inversion H. subst q'. simpl. destruct inv; destruct (existsb _ _); reflexivity.
+  - rewrite invert_QJ in H. rewrite neg_ok_QJ in G.
+    destruct (fix_not_junction vr); [|congruence].
+    destruct (map_result (invert vr) ms) as [ms'|e] eqn:EM; simpl in H; [|congruence].
+    apply andb_true_iff in G. destruct G as [Gm Gj].
+    unfold junction in H. unfold junction_ok in Gj.
+    rewrite (mk_junction_sem f vr ci ct Hci Hct _ _ _ _ H Gj o W).
+    rewrite holds_QJ.
+    apply (jsem_dual k (fun x y => invert vr x = Ok y)).
+    + apply map_result_ok. exact EM.
+    + intros x y Hx Hy. rewrite Forall_forall in HF. rewrite forallb_forall in Gm.
+      apply (HF x Hx y Hy (Gm x Hx) o W).
 Qed.
 
 (* ---------- the exactness theorem ---------- *)
@@ -116,25 +168,27 @@ Proof. unfold wf_fit. intro H. apply andb_true_iff in H. tauto. Qed.
 Lemma wf_fit_info f : wf_fit f = true -> str_nodup (map fst (finfo f)) = true.
 Proof. unfold wf_fit. intro H. apply andb_true_iff in H. tauto. Qed.
 
-Lemma junction2_sem f vr ci k x y q :
+Lemma junction2_sem f vr ci ct k x y q :
   (ci = true \/ fix_inverted_merge vr = true) ->
-  junction vr k [x; y] = Ok q -> junction_ok vr ci true k [x; y] = true ->
+  (ct = true \/ fix_or_tables vr = true) ->
+  junction vr k [x; y] = Ok q -> junction_ok vr ci ct k [x; y] = true ->
   forall o, wf_obj o = true -> holds f q o = jop k (holds f x o) (holds f y o).
 Proof.
-  intros Hci Hq Hok o W. unfold junction in Hq. unfold junction_ok in Hok.
-  rewrite (mk_junction_sem f vr ci Hci _ _ _ _ Hq Hok o W).
+  intros Hci Hct Hq Hok o W. unfold junction in Hq. unfold junction_ok in Hok.
+  rewrite (mk_junction_sem f vr ci ct Hci Hct _ _ _ _ Hq Hok o W).
   destruct k; simpl; [rewrite andb_true_r | rewrite orb_false_r]; reflexivity.
 Qed.
 
-Theorem compile_exact vr ci ca :
+Theorem compile_exact vr ci ct ca :
   (ci = true \/ fix_inverted_merge vr = true) ->
+  (ct = true \/ fix_or_tables vr = true) ->
   forall p q f,
-    compile vr p = Ok q -> safe_with vr ci true true ca p = true -> wf_fit f = true ->
-    (ca = true \/ attrs_defined f = true) ->
+    compile vr p = Ok q -> safe_with vr ci ct true ca p = true -> wf_fit f = true ->
+    (ca = true \/ attrs_defined f = true \/ fix_not_null vr = true) ->
     forallb (acond_plain f) (attr_tests p) = true ->
     sem q f = eval p f.
 Proof.
-  intros Hci p. induction p as [path c k|a|k v|a IHa b IHb|a IHa b IHb|a IHa]; intros q f Hq Hs W Hca Hpl; unfold sem in *.
+  intros Hci Hct p. induction p as [path c k|a|k v|a IHa b IHb|a IHa b IHb|a IHa]; intros q f Hq Hs W Hca Hpl; unfold sem in *.
   - (* path comparison *)
     destruct path as [|n r]; simpl in Hq; [congruence|].
     destruct (leaf_of c k) as [leaf|e] eqn:EL; simpl in Hq; [|congruence].
@@ -144,15 +198,17 @@ Proof.
     reflexivity.
   - simpl in Hq. inversion Hq. subst q. simpl. apply acond3_collapse.
     simpl in Hpl. apply andb_true_iff in Hpl. tauto.
-  - simpl in Hq. inversion Hq. subst q. simpl.
-    rewrite <- (exists_unique_name (fun w => String.eqb w v) k (finfo f) (wf_fit_info f W)).
-    reflexivity.
+  - simpl in Hq.
+    assert (E : holds f q (finst f) = match lookup k (finfo f) with Some w => String.eqb w v | None => false end).
+    { rewrite <- (exists_unique_name (fun w => String.eqb w v) k (finfo f) (wf_fit_info f W)).
+      destruct (fix_not_info vr); inversion Hq; subst q; simpl; [destruct (existsb _ _)|]; reflexivity. }
+    rewrite E. reflexivity.
   - (* and *)
     simpl in Hq, Hs.
     destruct (compile vr a) as [x|e] eqn:Ea; simpl in Hq; [|congruence].
     destruct (compile vr b) as [y|e] eqn:Eb; simpl in Hq; [|congruence].
     apply andb_true_iff in Hs. destruct Hs as [Hs Hj]. apply andb_true_iff in Hs. destruct Hs as [Hsa Hsb].
-    rewrite (junction2_sem f vr ci JAnd x y q Hci Hq Hj _ (wf_fit_obj f W)). simpl.
+    rewrite (junction2_sem f vr ci ct JAnd x y q Hci Hct Hq Hj _ (wf_fit_obj f W)). simpl.
     simpl in Hpl. rewrite forallb_app in Hpl. apply andb_true_iff in Hpl. destruct Hpl as [Hpa Hpb].
     rewrite (IHa x f eq_refl Hsa W Hca Hpa), (IHb y f eq_refl Hsb W Hca Hpb). reflexivity.
   - (* or *)
@@ -160,34 +216,32 @@ Proof.
     destruct (compile vr a) as [x|e] eqn:Ea; simpl in Hq; [|congruence].
     destruct (compile vr b) as [y|e] eqn:Eb; simpl in Hq; [|congruence].
     apply andb_true_iff in Hs. destruct Hs as [Hs Hj]. apply andb_true_iff in Hs. destruct Hs as [Hsa Hsb].
-    rewrite (junction2_sem f vr ci JOr x y q Hci Hq Hj _ (wf_fit_obj f W)). simpl.
+    rewrite (junction2_sem f vr ci ct JOr x y q Hci Hct Hq Hj _ (wf_fit_obj f W)). simpl.
     simpl in Hpl. rewrite forallb_app in Hpl. apply andb_true_iff in Hpl. destruct Hpl as [Hpa Hpb].
     rewrite (IHa x f eq_refl Hsa W Hca Hpa), (IHb y f eq_refl Hsb W Hca Hpb). reflexivity.
   - (* not *)
     simpl in Hq, Hs.
     destruct (compile vr a) as [x|e] eqn:Ea; simpl in Hq; [|congruence].
-    apply andb_true_iff in Hs. destruct Hs as [Hs Hna]. apply andb_true_iff in Hs. destruct Hs as [Hsa Hn].
-    simpl in Hn. rewrite (invert_sem f x q _ Hq).
-    + rewrite (IHa x f eq_refl Hsa W Hca Hpl). reflexivity.
-    + intros negs k v E. subst x. congruence.
-    + intros negs a' E. subst x. destruct Hca as [Hc | Hd].
-      * subst ca. simpl in Hna. congruence.
-      * apply attrs_defined_acond3. exact Hd.
+    apply andb_true_iff in Hs. destruct Hs as [Hsa Hn].
+    rewrite (invert_sem f vr ci ct ca Hci Hct Hca x q Hq Hn _ (wf_fit_obj f W)).
+    rewrite (IHa x f eq_refl Hsa W Hca Hpl). reflexivity.
 Qed.
 
 (* as a statement about result lists *)
-Theorem select_exact vr ci ca :
+Theorem select_exact vr ci ct ca :
   (ci = true \/ fix_inverted_merge vr = true) ->
+  (ct = true \/ fix_or_tables vr = true) ->
   forall p q db,
-    compile vr p = Ok q -> safe_with vr ci true true ca p = true -> forallb wf_fit db = true ->
-    (ca = true \/ forallb attrs_defined db = true) ->
+    compile vr p = Ok q -> safe_with vr ci ct true ca p = true -> forallb wf_fit db = true ->
+    (ca = true \/ forallb attrs_defined db = true \/ fix_not_null vr = true) ->
     forallb (fun f => forallb (acond_plain f) (attr_tests p)) db = true ->
     select q db = filter (eval p) db.
 Proof.
-  intros Hci p q db Hq Hs W Hca Hpl. unfold select. apply filter_ext_in.
-  intros f Hf. apply (compile_exact vr ci ca Hci p q f Hq Hs).
+  intros Hci Hct p q db Hq Hs W Hca Hpl. unfold select. apply filter_ext_in.
+  intros f Hf. apply (compile_exact vr ci ct ca Hci Hct p q f Hq Hs).
   - rewrite forallb_forall in W. apply W. exact Hf.
-  - destruct Hca as [Hc | Hd]; [left; exact Hc | right]. rewrite forallb_forall in Hd. apply Hd. exact Hf.
+  - destruct Hca as [Hc | [Hd | Hx]]; [left; exact Hc | right; left | right; right; exact Hx].
+    rewrite forallb_forall in Hd. apply Hd. exact Hf.
   - rewrite forallb_forall in Hpl. apply Hpl. exact Hf.
 Qed.
 
@@ -221,7 +275,7 @@ Qed.
 
 Lemma flatten_depth k : forall q x, In x (flatten k q) -> qdepth x <= qdepth q.
 Proof.
-  induction q as [| | | |n inner inv IHq| | |k' ms HF] using qobj_ind'; intros x Hx;
+  induction q as [| | | |n inner inv IHq| | | | |k' ms HF] using qobj_ind'; intros x Hx;
     try (rewrite flatten_other in Hx by (intros; congruence); destruct Hx as [E | []]; subst; lia).
   destruct (jk_eqb k k') eqn:E.
   - apply jk_eqb_eq in E. subst k'. rewrite flatten_QJ_same in Hx.
@@ -252,25 +306,25 @@ Proof.
   rewrite mk_junction_S. cbv zeta.
   set (flat := flat_map (flatten k) conds).
   set (named := filter (mergeable vr) flat).
-  destruct (map_result (merge_one vr fuel k named) (nodup_str (map qname named))) as [merged|e] eqn:EM; simpl.
+  destruct (map_result (merge_one vr fuel k named) (nodup_key (map (mkey vr k) named))) as [merged|e] eqn:EM; simpl.
   - unfold finish. destruct (dedupe _) as [|x [|y r]]; intro Hc; discriminate Hc.
   - intro H. inversion H. subst e. clear H.
     apply map_result_err in EM. destruct EM as [n [Hn Hg]].
     unfold merge_one in Hg.
-    destruct (mk_junction vr fuel k (map qinner (grp n named))) as [sub|e] eqn:ES.
-    + unfold bind in Hg. cbv zeta in Hg. destruct (tables_ok (QNamed n sub false)); congruence.
+    destruct (mk_junction vr fuel k (map qinner (grp vr k n named))) as [sub|e] eqn:ES.
+    + unfold bind in Hg. cbv zeta in Hg. destruct (tables_ok (QNamed (fst n) sub false)); congruence.
     + simpl in Hg. inversion Hg. subst e. revert ES. apply IH.
       (* members of a group are strictly shallower than the NamedQuery holding them *)
       assert (Hflat : forall x, In x flat -> qdepth x <= depth_list conds).
       { intros x Hx. unfold flat in Hx. apply in_flat_map in Hx. destruct Hx as [c [Hc Hx]].
         pose proof (flatten_depth k c x Hx). pose proof (depth_list_in c conds Hc). lia. }
-      apply (proj1 (nodup_str_in _ _)) in Hn. apply (proj1 (in_map_iff _ _ _)) in Hn. destruct Hn as [w [Ew Hw]].
+      apply (proj1 (nodup_key_in _ _)) in Hn. apply (proj1 (in_map_iff _ _ _)) in Hn. destruct Hn as [w [Ew Hw]].
       assert (Hw' : In w flat) by (unfold named in Hw; apply filter_In in Hw; tauto).
       assert (Hwm : mergeable vr w = true) by (unfold named in Hw; apply filter_In in Hw; tauto).
       destruct (mergeable_named vr w Hwm) as [n' [i [inv E]]].
       assert (1 <= depth_list conds).
       { specialize (Hflat w Hw'). subst w. simpl in Hflat. lia. }
-      assert (depth_list (map qinner (grp n named)) <= depth_list conds - 1).
+      assert (depth_list (map qinner (grp vr k n named)) <= depth_list conds - 1).
       { apply depth_list_le. intros x Hx. apply (proj1 (in_map_iff _ _ _)) in Hx. destruct Hx as [z [Ez Hz]].
         unfold grp in Hz. apply filter_In in Hz. destruct Hz as [Hz _].
         assert (Hzf : In z flat) by (unfold named in Hz; apply filter_In in Hz; tauto).
@@ -280,13 +334,25 @@ Proof.
       lia.
 Qed.
 
+Lemma invert_no_fuel vr : forall q, invert vr q <> Err EFuel.
+Proof.
+  induction q as [| | | |n inner inv IHq|negs a|negs k v|negs a|inv k v|k ms HF] using qobj_ind';
+    try (simpl; congruence).
+  - simpl. destruct (fix_not_null vr); congruence.
+  - rewrite invert_QJ. destruct (fix_not_junction vr); [|congruence].
+    destruct (map_result (invert vr) ms) as [ms'|e] eqn:EM; simpl.
+    + unfold junction. apply mk_junction_no_fuel. lia.
+    + intro H. inversion H. subst e. apply map_result_err in EM. destruct EM as [x [Hx Ex]].
+      rewrite Forall_forall in HF. exact (HF x Hx Ex).
+Qed.
+
 Theorem compile_no_fuel vr : forall p, compile vr p <> Err EFuel.
 Proof.
   induction p as [path c k|a|k v|a IHa b IHb|a IHa b IHb|a IHa]; simpl.
   - destruct path; [congruence|]. destruct (leaf_of c k) eqn:E; simpl; try congruence.
     destruct k; simpl in E; try destruct (cmp_eqb c CEq); congruence.
   - congruence.
-  - congruence.
+  - destruct (fix_not_info vr); congruence.
   - destruct (compile vr a) as [x|e]; simpl; [|congruence].
     destruct (compile vr b) as [y|e]; simpl; [|congruence].
     unfold junction. apply mk_junction_no_fuel. lia.
@@ -294,12 +360,12 @@ Proof.
     destruct (compile vr b) as [y|e]; simpl; [|congruence].
     unfold junction. apply mk_junction_no_fuel. lia.
   - destruct (compile vr a) as [x|e]; simpl; [|congruence].
-    destruct x; simpl; congruence.
+    apply invert_no_fuel.
 Qed.
 
 (* ---------- junction-free well-formed predicates always compile ---------- *)
 Definition invertible (q : qobj) : Prop :=
-  match q with QNamed _ _ _ | QAttr _ _ | QInfo _ _ _ => True | _ => False end.
+  match q with QNamed _ _ _ | QAttr _ _ | QInfo _ _ _ | QAttrT _ _ | QInfoI _ _ _ => True | _ => False end.
 
 Lemma compile_junction_free vr : forall p,
   wf_pred p = true -> junction_free p = true -> exists q, compile vr p = Ok q /\ invertible q.
@@ -310,7 +376,8 @@ Proof.
     { destruct k; simpl; eauto; destruct (cmp_eqb c CEq); simpl in W; try congruence; eauto. }
     destruct L as [leaf L]. rewrite L. simpl. eexists. split; [reflexivity | exact I].
   - eexists. split; [reflexivity | exact I].
-  - eexists. split; [reflexivity | exact I].
+  - destruct (fix_not_info vr); eexists; split; try reflexivity; exact I.
   - destruct (IHa W J) as [q [Hq Hi]]. rewrite Hq. simpl.
-    destruct q; simpl in Hi; try contradiction; simpl; eexists; split; try reflexivity; exact I.
+    destruct q; simpl in Hi; try contradiction; simpl; try destruct (fix_not_null vr);
+      eexists; split; try reflexivity; exact I.
 Qed.
